@@ -15,7 +15,7 @@ impl Property for C01 {
             Segment::random("small", tier.pick(150_000, 1_500_000), &[0], 8, 300),
             Segment::random("medium", tier.pick(60_000, 600_000), &[1], 8, 300),
             Segment::random("large", tier.pick(5_000, 60_000), &[2], 8, 300),
-            Segment::enumerated("huge(>2^32 bits)", tier.pick(3, 18), &[9]),
+            Segment::enumerated("huge(>2^32 bits)", tier.pick(5, 30), &[9]),
         ]
     }
     fn rule(&self) -> &'static str {
@@ -28,7 +28,7 @@ impl Property for C01 {
             b[..rest.len().min(8)].copy_from_slice(&rest[..rest.len().min(8)]);
             let j = u64::from_le_bytes(b);
             cx.hash(&("huge", j));
-            cx.describe(|| format!("huge case {j}: 2^32+delta bits, pattern {}", j % 3));
+            cx.describe(|| format!("huge case {j}: more than 2^32 bits, pattern {}", j % 5));
             return crate::huge::rank_case(cx, j);
         }
         let cap = match mode % 3 {
